@@ -291,6 +291,82 @@ func lenSites(t *schema.Type) []lenSite {
 	return r
 }
 
+// overlongCase builds a value of some type that holds, somewhere in its tree, exactly one field with max+1
+// elements / bytes behind an 8- or 16-bit prefix.
+type overlongCase struct {
+	site  string
+	build func() any
+}
+
+func overlongCases(e *Env, t *schema.Type, depth int) []overlongCase {
+	var out []overlongCase
+	for _, s := range lenSites(t) {
+		if s.max > 0xFFFF {
+			continue
+		}
+		s := s
+		out = append(out, overlongCase{fmt.Sprintf("%s.%s(%s)", t.QName, s.field.Name, s.what), func() any {
+			g := e.Gen(&gen.Opts{Lens: []int{1}, StrLens: []int{2}, NoNilBody: true}, "C18-overlong", t.QName, s.field.Name, s.what)
+			v := g.Value(t)
+			setLen(e, t, v, s, s.max+1, g)
+			return v
+		}})
+	}
+	if depth >= 3 {
+		return out
+	}
+	for i := range t.Fields {
+		f := &t.Fields[i]
+		switch f.Kind {
+		case "objlist", "struct":
+			et := e.S.Lookup(t.Pkg, f.Type)
+			if et == nil {
+				continue
+			}
+			for _, c := range overlongCases(e, et, depth+1) {
+				c := c
+				out = append(out, overlongCase{t.QName + "." + f.Name + "{" + c.site + "}", func() any {
+					g := e.Gen(&gen.Opts{Lens: []int{2}, StrLens: []int{2}, NoNilBody: true}, "C18-overlong", t.QName, f.Name, c.site)
+					v := g.Value(t)
+					fv := reflect.ValueOf(v).Elem().FieldByName(f.Name)
+					child := reflect.ValueOf(c.build())
+					switch {
+					case f.Kind == "objlist":
+						if fv.Len() == 0 {
+							fv.Set(reflect.MakeSlice(fv.Type(), 1, 1))
+						}
+						fv.Index(fv.Len() - 1).Set(child)
+					case f.Value:
+						fv.Set(child.Elem())
+					default:
+						fv.Set(child)
+					}
+					return v
+				}})
+			}
+		case "union":
+			tb := e.S.Table(t.Pkg, f.Table)
+			for _, en := range tb.Entries {
+				en := en
+				bt := e.S.Lookup(t.Pkg, en.Type)
+				if bt == nil {
+					continue
+				}
+				for _, c := range overlongCases(e, bt, depth+1) {
+					c := c
+					out = append(out, overlongCase{t.QName + "." + f.Name + "{" + c.site + "}", func() any {
+						g := e.Gen(&gen.Opts{Lens: []int{1}, StrLens: []int{2}, NoNilBody: true, ForceKey: map[string]any{tb.QName: en.Key}}, "C18-overlong", t.QName, f.Name, c.site)
+						v := g.Value(t)
+						reflect.ValueOf(v).Elem().FieldByName(f.Name).Set(reflect.ValueOf(c.build()))
+						return v
+					}})
+				}
+			}
+		}
+	}
+	return out
+}
+
 // setLen sets the site of message v to exactly n bytes / elements.
 func setLen(e *Env, t *schema.Type, v any, s lenSite, n int, g *gen.Gen) {
 	fv := reflect.ValueOf(v).Elem().FieldByName(s.field.Name)
@@ -379,71 +455,22 @@ func c18Messages(e *Env, u32 bool) {
 				}
 			}
 		}
-		// propagation through nesting: an element of an object list, or a nested part, with an over-long field of its own
-		for fi2 := range t.Fields {
-			f := &t.Fields[fi2]
-			if u32 || (f.Kind != "objlist" && f.Kind != "struct") {
-				continue
-			}
-			et := e.S.Lookup(t.Pkg, f.Type)
-			for _, s := range lenSites(et) {
-				if s.max > 0xFFFF {
-					continue
+		// propagation: an over-long field anywhere below this message - in an element of an object list, a nested
+		// part, a frame body, an application extension, or an extension inside a body inside a frame - must make
+		// the OUTERMOST Encode fail
+		if !u32 {
+			for _, c := range overlongCases(e, t, 0) {
+				if !strings.Contains(c.site, "{") {
+					continue // the message's own sites were judged above
 				}
-				g := e.Gen(&gen.Opts{Lens: []int{2}, StrLens: []int{2}}, t.QName, f.Name, s.field.Name, s.what, "nested")
-				v := g.Value(t)
-				fv := reflect.ValueOf(v).Elem().FieldByName(f.Name)
-				var el any
-				switch {
-				case f.Kind == "objlist" && fv.Len() > 0:
-					el = fv.Index(fv.Len() - 1).Interface()
-				case f.Kind == "struct" && f.Value:
-					el = fv.Addr().Interface()
-				case f.Kind == "struct" && !fv.IsNil():
-					el = fv.Interface()
-				}
-				if el == nil {
-					continue
-				}
-				setLen(e, et, el, s, s.max+1, g)
+				v := c.build()
 				_, err, p := EncodeFresh(v)
 				r.Evals(1)
-				site := fmt.Sprintf("%s.%s{%s.%s(%s)}", t.QName, f.Name, et.QName, s.field.Name, s.what)
 				if p != nil || err == nil {
-					r.Violate("C18/nested-silent-wrap/"+site, "C18/nested-silent-wrap/"+t.QName, map[string]any{"type": t.QName, "site": site, "length": s.max + 1, "panic": fmt.Sprint(p), "observed": "the enclosing message encoded 'successfully' although a nested element refused (or should have refused) its over-long field"})
+					r.Violate("C18/nested-silent-wrap/"+c.site, "C18/nested-silent-wrap/"+t.QName, map[string]any{"type": t.QName, "site": c.site, "panic": fmt.Sprint(p), "observed": "the enclosing message encoded 'successfully' although a part below it holds one element / byte more than its prefix can represent"})
 				} else {
-					acc.merge(map[string]int{"enclosing-messages-refusing-overlong-nested-field": 1})
-					r.Distinct(val.Hash(site))
-				}
-			}
-		}
-		// propagation through a frame: body with an over-long field inside its frame
-		if fi := frameOf(t); fi != nil && !u32 {
-			for _, f := range t.Fields {
-				if f.Kind != "union" {
-					continue
-				}
-				tb := e.S.Table(t.Pkg, f.Table)
-				for _, en := range tb.Entries {
-					bt := e.S.Lookup(t.Pkg, en.Type)
-					for _, s := range lenSites(bt) {
-						if s.max > 0xFFFF {
-							continue
-						}
-						g := e.Gen(&gen.Opts{Lens: []int{1}, StrLens: []int{2}, ForceKey: map[string]any{tb.QName: en.Key}}, t.QName, bt.QName, s.field.Name, s.what)
-						v := g.Value(t)
-						body := reflect.ValueOf(v).Elem().FieldByName(f.Name).Elem().Interface()
-						setLen(e, bt, body, s, s.max+1, g)
-						_, err, p := EncodeFresh(v)
-						r.Evals(1)
-						site := fmt.Sprintf("%s{%s.%s(%s)}", t.QName, bt.QName, s.field.Name, s.what)
-						if p != nil || err == nil {
-							r.Violate("C18/frame-silent-wrap/"+site, "C18/frame-silent-wrap/"+t.QName, map[string]any{"type": t.QName, "site": site, "length": s.max + 1, "panic": fmt.Sprint(p)})
-						} else {
-							acc.merge(map[string]int{"frames-refusing-overlong-body-field": 1})
-							r.Distinct(val.Hash(site))
-						}
-					}
+					acc.merge(map[string]int{"enclosing-messages-refusing-overlong-nested-field": 1, fmt.Sprintf("nesting-depth-%d", strings.Count(c.site, "{")): 1})
+					r.Distinct(val.Hash(c.site))
 				}
 			}
 		}
